@@ -1,6 +1,14 @@
 /-
   AVX2 lane kernels (Gen/Avx2.lean, regenerated from goldilocks_base_field_avx.hpp) on `Nat`.
   Part 1: lane extraction and the add/sub/canonicalise family.  Helper lemmas only.
+
+  Proof scheme (chosen so that behaviour-preserving rewrites of the C++ do not disturb it):
+  * `K_get`  : `(K a b).get i = L2.bin K (a.get i) (b.get i)` — both sides are normalised by the one closed simp set
+               `lane_get`; no lane expression is ever written down, so local names, the order of independent
+               statements and the choice among modelled intrinsics do not matter.
+  * `K_spec` : the lane function `L2.bin K x y` is unfolded by `lane_get`, moved to `Nat` by `lane_nat` (which
+               knows both operand orders of the commutative operations and the equivalent idioms) and the
+               arithmetic fact is closed by `omega` per case of the comparison masks.
 -/
 import GoldilocksVerif.Gen.Avx2
 import GoldilocksVerif.Lemmas.LaneNat
@@ -9,13 +17,21 @@ set_option linter.unusedSimpArgs false
 namespace GoldilocksVerif
 open Gen.Avx2 Gen.VecConsts Lane
 
-@[simp] theorem V4.get_set_same (c : BitVec 64) (i : Fin 4) : (Avx2.set_epi64x c c c c).get i = c := by
+@[simp, lane_get] theorem V4.get_set_same (c : BitVec 64) (i : Fin 4) : (Avx2.set_epi64x c c c c).get i = c := by
   match i with
   | 0 => rfl | 1 => rfl | 2 => rfl | 3 => rfl
-theorem V4.get_blend_aa (a b : V4) (i : Fin 4) :
+@[lane_get] theorem V4.get_set1 (c : BitVec 64) (i : Fin 4) : (Avx2.set1_epi64x c).get i = c := by
+  match i with
+  | 0 => rfl | 1 => rfl | 2 => rfl | 3 => rfl
+@[lane_get] theorem V4.get_blend_aa (a b : V4) (i : Fin 4) :
     (Avx2.blend_epi32 a b 170).get i = Lane.blend32 2 (a.get i) (b.get i) := by
   match i with
   | 0 => rfl | 1 => rfl | 2 => rfl | 3 => rfl
+
+-- every lane-wise intrinsic of `Isa/Avx2.lean`, the lane reads and the register constants of the library
+attribute [lane_get] Avx2.add_epi64 Avx2.sub_epi64 Avx2.and_si256 Avx2.andnot_si256 Avx2.xor_si256 Avx2.or_si256
+  Avx2.cmpeq_epi64 Avx2.cmpeq_epi32 Avx2.cmpgt_epi64 Avx2.cmpgt_epi32 Avx2.srli_epi64 Avx2.slli_epi64 Avx2.mul_epu32
+  Avx2.movehdup_ps Avx2.moveldup_ps V4.get_map V4.get_map2 V4.get_splat and_self g_MSB g_P g_P_n g_P_s g_sqmask
 
 namespace L2
 /-- lane function of a unary / binary kernel: run it on a broadcast register and read lane 0 -/
@@ -23,17 +39,17 @@ def un (f : V4 → V4) (x : BitVec 64) : BitVec 64 := (f (V4.splat x)).get 0
 def bin (f : V4 → V4 → V4) (x y : BitVec 64) : BitVec 64 := (f (V4.splat x) (V4.splat y)).get 0
 end L2
 
-/-- unshifted value of a shifted representation -/
-def unsh (n : Nat) : Nat := (n + 9223372036854775808) % 18446744073709551616
-
 theorem hi_unsh (v : Nat) : (v / 4294967296 + 2147483648) % 4294967296 = unsh v / 4294967296 := by
   unfold unsh; omega
 theorem unsh_add (x y : Nat) : unsh ((x + y) % 18446744073709551616) = (unsh x + y) % 18446744073709551616 := by
+  unfold unsh; omega
+theorem unsh_add' (x y : Nat) : unsh ((y + x) % 18446744073709551616) = (unsh x + y) % 18446744073709551616 := by
   unfold unsh; omega
 theorem unsh_sub (x y : Nat) :
     unsh ((18446744073709551616 - y + x) % 18446744073709551616) = (18446744073709551616 - y + unsh x) % 18446744073709551616 := by
   unfold unsh; omega
 theorem unsh_lt (x : Nat) : unsh x < 18446744073709551616 := by unfold unsh; omega
+theorem unsh_unsh (x : Nat) (h : x < 18446744073709551616) : unsh (unsh x) = x := by unfold unsh; omega
 /-- the 32-bit-compare shortcut of `add_avx_s_b_small` (unsigned form) -/
 theorem cmp32_add (a y : Nat) (ha : a < 18446744073709551616) (hy : y ≤ 18446744069414584320) :
     ((a + y) % 18446744073709551616 / 4294967296 < a / 4294967296) ↔ 18446744073709551616 ≤ a + y := by
@@ -45,14 +61,19 @@ theorem cmp32_sub (a y : Nat) (ha : a < 18446744073709551616) (hy : y ≤ 184467
 
 /-! #### lanewise-ness (tie to the generated definitions) -/
 
-theorem shift_get (a : V4) (i : Fin 4) : (shift_avx a).get i = a.get i ^^^ 9223372036854775808#64 := by
-  simp only [shift_avx, Avx2.xor_si256, V4.get_map2, g_MSB, V4.get_set_same]
+theorem shift_get (a : V4) (i : Fin 4) : (shift_avx a).get i = L2.un shift_avx (a.get i) := by
+  unfold L2.un
+  simp only [shift_avx, lane_get]
+
+/-- shift_avx adds 2^63 (mod 2^64) -/
+theorem shift_spec (x : BitVec 64) : (L2.un shift_avx x).toNat = unsh x.toNat := by
+  unfold L2.un
+  simp only [shift_avx, lane_get, lane_nat]
 
 theorem toCanonical_s_get (a : V4) (i : Fin 4) :
     (toCanonical_avx_s a).get i = L2.un toCanonical_avx_s (a.get i) := by
   unfold L2.un
-  simp only [toCanonical_avx_s, Avx2.cmpgt_epi64, Avx2.andnot_si256, Avx2.add_epi64, Avx2.xor_si256,
-    V4.get_map2, V4.get_splat, V4.get_set_same, g_P_s, g_P_n, g_P, g_MSB]
+  simp only [toCanonical_avx_s, lane_get]
 
 theorem toCanonical_get (a : V4) (i : Fin 4) :
     (toCanonical_avx a).get i = L2.un toCanonical_avx (a.get i) := by
@@ -62,8 +83,7 @@ theorem toCanonical_get (a : V4) (i : Fin 4) :
 theorem add_a_sc_get (a b : V4) (i : Fin 4) :
     (add_avx_a_sc a b).get i = L2.bin add_avx_a_sc (a.get i) (b.get i) := by
   unfold L2.bin
-  simp only [add_avx_a_sc, shift_get, Avx2.cmpgt_epi64, Avx2.and_si256, Avx2.add_epi64,
-    V4.get_map2, V4.get_splat, V4.get_set_same, g_P_n]
+  simp only [add_avx_a_sc, shift_get, lane_get]
 
 theorem add_get (a b : V4) (i : Fin 4) :
     (add_avx__vVV a b).get i = L2.bin add_avx__vVV (a.get i) (b.get i) := by
@@ -73,97 +93,69 @@ theorem add_get (a b : V4) (i : Fin 4) :
 theorem add_s_b_small_get (a b : V4) (i : Fin 4) :
     (add_avx_s_b_small a b).get i = L2.bin add_avx_s_b_small (a.get i) (b.get i) := by
   unfold L2.bin
-  simp only [add_avx_s_b_small, Avx2.cmpgt_epi32, Avx2.srli_epi64, Avx2.add_epi64,
-    V4.get_map2, V4.get_map, V4.get_splat]
+  simp only [add_avx_s_b_small, lane_get]
 
 theorem add_b_small_get (a b : V4) (i : Fin 4) :
     (add_avx_b_small a b).get i = L2.bin add_avx_b_small (a.get i) (b.get i) := by
   unfold L2.bin
-  simp only [add_avx_b_small, shift_get, Avx2.cmpgt_epi32, Avx2.srli_epi64, Avx2.add_epi64,
-    V4.get_map2, V4.get_map, V4.get_splat]
+  simp only [add_avx_b_small, shift_get, lane_get]
 
 theorem sub_get (a b : V4) (i : Fin 4) :
     (sub_avx__vVV a b).get i = L2.bin sub_avx__vVV (a.get i) (b.get i) := by
   unfold L2.bin
-  simp only [sub_avx__vVV, shift_get, toCanonical_s_get, Avx2.cmpgt_epi64, Avx2.and_si256, Avx2.add_epi64,
-    Avx2.sub_epi64, V4.get_map2, V4.get_splat, V4.get_set_same, g_P]
+  simp only [sub_avx__vVV, shift_get, toCanonical_s_get, lane_get]
 
 theorem sub_s_b_small_get (a b : V4) (i : Fin 4) :
     (sub_avx_s_b_small a b).get i = L2.bin sub_avx_s_b_small (a.get i) (b.get i) := by
   unfold L2.bin
-  simp only [sub_avx_s_b_small, Avx2.cmpgt_epi32, Avx2.srli_epi64, Avx2.sub_epi64,
-    V4.get_map2, V4.get_map, V4.get_splat]
+  simp only [sub_avx_s_b_small, lane_get]
 
-/-! #### lane functions as explicit bit-vector expressions -/
+/-! #### the lane functions on `Nat` -/
 
-theorem canon_s_lane (x : BitVec 64) : L2.un toCanonical_avx_s x =
-    x + (~~~(cmpgt64 (18446744069414584321#64 ^^^ 9223372036854775808#64) x) &&& 4294967295#64) := by
-  unfold L2.un
-  simp only [toCanonical_avx_s, Avx2.cmpgt_epi64, Avx2.andnot_si256, Avx2.add_epi64, Avx2.xor_si256,
-    V4.get_map2, V4.get_splat, V4.get_set_same, g_P_s, g_P_n, g_P, g_MSB]
-
+/-- the shifted prime, whichever way the constant folds -/
 theorem PsConst : (18446744069414584321#64 ^^^ 9223372036854775808#64 : BitVec 64).toNat = 9223372032559808513 := by
   rw [xor_msb_toNat]; rfl
 
 /-- toCanonical_avx_s : on a shifted representation, returns the shifted canonical representative -/
 theorem canon_s_spec (x : BitVec 64) :
     unsh (L2.un toCanonical_avx_s x).toNat = unsh x.toNat % P ∧ unsh (L2.un toCanonical_avx_s x).toNat < P := by
-  rw [canon_s_lane, BitVec.toNat_add, cmpgt64_eq, mask_andnot_toNat, PsConst]
-  simp only [BitVec.toNat_ofNat, Nat.reducePow, Nat.reduceMod, decide_eq_true_eq, unsh, P, Nat.reduceAdd]
+  unfold L2.un
+  simp only [toCanonical_avx_s, lane_get, lane_nat, unsh, P]
+  simp only [ltN_def]
   have hx := x.isLt
   split <;> omega
 
 theorem canon_spec (x : BitVec 64) : (L2.un toCanonical_avx x).toNat = x.toNat % P := by
-  have h : L2.un toCanonical_avx x = (L2.un toCanonical_avx_s (x ^^^ 9223372036854775808#64)) ^^^ 9223372036854775808#64 := by
+  have h : L2.un toCanonical_avx x = L2.un shift_avx (L2.un toCanonical_avx_s (L2.un shift_avx x)) := by
     unfold L2.un
     simp only [toCanonical_avx, shift_get, toCanonical_s_get, V4.get_splat]
-  rw [h, xor_msb_toNat]
-  have := (canon_s_spec (x ^^^ 9223372036854775808#64)).1
-  rw [xor_msb_toNat] at this
-  simp only [unsh] at this
-  have hx := x.isLt
-  have e : ((x.toNat + 9223372036854775808) % 18446744073709551616 + 9223372036854775808) % 18446744073709551616 = x.toNat := by omega
-  rw [e] at this
-  exact this
-
-theorem add_a_sc_lane (x y : BitVec 64) : L2.bin add_avx_a_sc x y =
-    (x + y + (cmpgt64 x (x + y) &&& 4294967295#64)) ^^^ 9223372036854775808#64 := by
-  unfold L2.bin
-  simp only [add_avx_a_sc, shift_get, Avx2.cmpgt_epi64, Avx2.and_si256, Avx2.add_epi64,
-    V4.get_map2, V4.get_splat, V4.get_set_same, g_P_n]
+  have hc := (canon_s_spec (L2.un shift_avx x)).1
+  rw [h, shift_spec, hc, shift_spec, unsh_unsh _ x.isLt]
 
 /-- add_avx_a_sc : first operand shifted canonical -/
 theorem add_a_sc_spec (x y : BitVec 64) (hx : unsh x.toNat < P) :
     (L2.bin add_avx_a_sc x y).toNat % P = (unsh x.toNat + y.toNat) % P := by
-  rw [add_a_sc_lane, xor_msb_toNat, BitVec.toNat_add, BitVec.toNat_add, cmpgt64_eq, mask_and_toNat]
-  simp only [BitVec.toNat_add, BitVec.toNat_ofNat, Nat.reducePow, Nat.reduceMod, decide_eq_true_eq, unsh, P] at *
+  unfold L2.bin
+  simp only [add_avx_a_sc, shift_get, lane_get, shift_spec, lane_nat, unsh, P] at *
+  simp only [ltN_def]
   have h1 := x.isLt
   have h2 := y.isLt
   split <;> omega
 
 theorem add_spec (x y : BitVec 64) : (L2.bin add_avx__vVV x y).toNat % P = (x.toNat + y.toNat) % P := by
   have h : L2.bin add_avx__vVV x y =
-      L2.bin add_avx_a_sc (L2.un toCanonical_avx_s (x ^^^ 9223372036854775808#64)) y := by
+      L2.bin add_avx_a_sc (L2.un toCanonical_avx_s (L2.un shift_avx x)) y := by
     unfold L2.bin
     simp only [add_avx__vVV, shift_get, toCanonical_s_get, add_a_sc_get, V4.get_splat]
-  have hc := canon_s_spec (x ^^^ 9223372036854775808#64)
-  rw [h, add_a_sc_spec _ _ hc.2, hc.1, xor_msb_toNat]
-  have h1 := x.isLt
-  have e : unsh ((x.toNat + 9223372036854775808) % 18446744073709551616) = x.toNat := by unfold unsh; omega
-  rw [e, Nat.mod_add_mod]
-
-theorem add_s_b_small_lane (x y : BitVec 64) : L2.bin add_avx_s_b_small x y =
-    x + y + (cmpgt32 x (x + y) >>> 32) := by
-  unfold L2.bin
-  simp only [add_avx_s_b_small, Avx2.cmpgt_epi32, Avx2.srli_epi64, Avx2.add_epi64,
-    V4.get_map2, V4.get_map, V4.get_splat]
+  have hc := canon_s_spec (L2.un shift_avx x)
+  rw [h, add_a_sc_spec _ _ hc.2, hc.1, shift_spec, unsh_unsh _ x.isLt, Nat.mod_add_mod]
 
 /-- add_avx_s_b_small : shifted first operand, second operand ≤ 0xFFFFFFFF00000000, shifted result -/
 theorem add_s_b_small_spec (x y : BitVec 64) (hy : y.toNat ≤ 18446744069414584320) :
     unsh (L2.bin add_avx_s_b_small x y).toNat % P = (unsh x.toNat + y.toNat) % P := by
-  rw [add_s_b_small_lane, BitVec.toNat_add, BitVec.toNat_add, cmpgt32_shr_toNat]
-  simp only [BitVec.toNat_add, Nat.reducePow]
-  simp only [hi_unsh, unsh_add, cmp32_add _ _ (unsh_lt _) hy]
+  unfold L2.bin
+  simp only [add_avx_s_b_small, lane_get, lane_nat]
+  simp only [hi_unsh, unsh_add, unsh_add', cmp32_add _ _ (unsh_lt _) hy]
   have h1 := unsh_lt x.toNat
   generalize unsh x.toNat = a at *
   unfold P
@@ -172,53 +164,33 @@ theorem add_s_b_small_spec (x y : BitVec 64) (hy : y.toNat ≤ 18446744069414584
 theorem add_b_small_spec (x y : BitVec 64) (hy : y.toNat ≤ 18446744069414584320) :
     (L2.bin add_avx_b_small x y).toNat % P = (x.toNat + y.toNat) % P := by
   have h : L2.bin add_avx_b_small x y =
-      (L2.bin add_avx_s_b_small (x ^^^ 9223372036854775808#64) y) ^^^ 9223372036854775808#64 := by
+      L2.un shift_avx (L2.bin add_avx_s_b_small (L2.un shift_avx x) y) := by
     unfold L2.bin
-    simp only [add_avx_b_small, add_avx_s_b_small, shift_get, Avx2.cmpgt_epi32, Avx2.srli_epi64, Avx2.add_epi64,
-      V4.get_map2, V4.get_map, V4.get_splat]
-  have := add_s_b_small_spec (x ^^^ 9223372036854775808#64) y hy
-  rw [h, xor_msb_toNat]
-  rw [xor_msb_toNat] at this
-  simp only [unsh] at this
-  have h1 := x.isLt
-  have e : ((x.toNat + 9223372036854775808) % 18446744073709551616 + 9223372036854775808) % 18446744073709551616 = x.toNat := by omega
-  rw [e] at this
+    simp only [add_avx_b_small, add_avx_s_b_small, shift_get, lane_get]
+  have := add_s_b_small_spec (L2.un shift_avx x) y hy
+  rw [shift_spec, unsh_unsh _ x.isLt] at this
+  rw [h, shift_spec]
   exact this
 
-theorem sub_lane (x y : BitVec 64) : L2.bin sub_avx__vVV x y =
-    (x ^^^ 9223372036854775808#64) - L2.un toCanonical_avx_s (y ^^^ 9223372036854775808#64) +
-      (cmpgt64 (L2.un toCanonical_avx_s (y ^^^ 9223372036854775808#64)) (x ^^^ 9223372036854775808#64) &&&
-        18446744069414584321#64) := by
-  unfold L2.bin
-  simp only [sub_avx__vVV, shift_get, toCanonical_s_get, Avx2.cmpgt_epi64, Avx2.and_si256, Avx2.add_epi64,
-    Avx2.sub_epi64, V4.get_map2, V4.get_splat, V4.get_set_same, g_P]
-
 theorem sub_spec (x y : BitVec 64) : ((L2.bin sub_avx__vVV x y).toNat + y.toNat) % P = x.toNat % P := by
-  have hc := canon_s_spec (y ^^^ 9223372036854775808#64)
-  rw [sub_lane, BitVec.toNat_add, BitVec.toNat_sub, cmpgt64_eq, mask_and_toNat]
-  generalize L2.un toCanonical_avx_s (y ^^^ 9223372036854775808#64) = yc at *
-  rw [xor_msb_toNat] at hc
-  rw [xor_msb_toNat]
+  have hc := canon_s_spec (L2.un shift_avx y)
+  rw [shift_spec, unsh_unsh _ y.isLt] at hc
+  unfold L2.bin
+  simp only [sub_avx__vVV, shift_get, toCanonical_s_get, lane_get, shift_spec, lane_nat]
+  generalize L2.un toCanonical_avx_s (L2.un shift_avx y) = yc at *
   have h1 := x.isLt
   have h2 := y.isLt
   have h3 := yc.isLt
-  have e : unsh ((y.toNat + 9223372036854775808) % 18446744073709551616) = y.toNat := by unfold unsh; omega
-  rw [e] at hc
   obtain ⟨hc1, hc2⟩ := hc
-  simp only [BitVec.toNat_ofNat, Nat.reducePow, Nat.reduceMod, decide_eq_true_eq, unsh, P] at *
+  simp only [unsh, P] at *
+  simp only [ltN_def]
   split <;> omega
-
-theorem sub_s_b_small_lane (x y : BitVec 64) : L2.bin sub_avx_s_b_small x y =
-    x - y - (cmpgt32 (x - y) x >>> 32) := by
-  unfold L2.bin
-  simp only [sub_avx_s_b_small, Avx2.cmpgt_epi32, Avx2.srli_epi64, Avx2.sub_epi64,
-    V4.get_map2, V4.get_map, V4.get_splat]
 
 /-- sub_avx_s_b_small : shifted minuend, subtrahend ≤ 0xFFFFFFFF00000000, shifted result -/
 theorem sub_s_b_small_spec (x y : BitVec 64) (hy : y.toNat ≤ 18446744069414584320) :
     (unsh (L2.bin sub_avx_s_b_small x y).toNat + y.toNat) % P = unsh x.toNat % P := by
-  rw [sub_s_b_small_lane, BitVec.toNat_sub, BitVec.toNat_sub, cmpgt32_shr_toNat]
-  simp only [BitVec.toNat_sub, Nat.reducePow]
+  unfold L2.bin
+  simp only [sub_avx_s_b_small, lane_get, lane_nat]
   simp only [hi_unsh, unsh_sub, cmp32_sub _ _ (unsh_lt _) hy]
   have h1 := unsh_lt x.toNat
   generalize unsh x.toNat = a at *
